@@ -444,7 +444,8 @@ M20(L) ==
              LET bg == BgCalls(L, s.x) IN
              /\ Len(bg) = 1
              /\ (bg[1].t1 - bg[1].t0) * 1000 <= L.swr + 999
-             /\ (bg[1].kind = "cancelled" /\ bg[1].ctxdone = 1 /\ L.open[s.x].rq.cancel = 0
+             \* (logged times saturate at 2 * 10^9: no duration can be read off beyond that)
+             /\ (bg[1].kind = "cancelled" /\ bg[1].ctxdone = 1 /\ L.open[s.x].rq.cancel = 0 /\ bg[1].t1 < 2000000000
                    => (bg[1].t1 - bg[1].t0) * 1000 >= L.swr)
              /\ (s.etag > 0 => bg[1].inm = s.etag)
              /\ (s.lm >= 0 => bg[1].ims = s.lm))
